@@ -8,6 +8,7 @@ type sC18 struct {
 	A int8   `bexpr:"a" alt:"x"`
 	B string `bexpr:"-" alt:"b"`
 	W wrapC12
+	L []interface{}
 }
 
 // sC18u is sC18 as the unwrap hook presents it (W replaced by the map it wraps).
@@ -15,6 +16,7 @@ type sC18u struct {
 	A int8   `bexpr:"a" alt:"x"`
 	B string `bexpr:"-" alt:"b"`
 	W map[string]interface{}
+	L []interface{}
 }
 
 func hookConstC18(v reflect.Value) reflect.Value {
@@ -24,7 +26,7 @@ func hookConstC18(v reflect.Value) reflect.Value {
 	return v
 }
 
-var exprsC18 = []string{`a == 1`, `x == 1`, `A == 1`, `W.k == 1`, `zz == 1`, `b == "s"`, `B == "s"`, `a != 1 or W.k == 2`, `any W as k, v { v == 1 }`}
+var exprsC18 = []string{`L.010 == 1`, `"/L/08" == 1`, `L.9 == 1`, `a == 1`, `x == 1`, `A == 1`, `W.k == 1`, `zz == 1`, `b == "s"`, `B == "s"`, `a != 1 or W.k == 2`, `any W as k, v { v == 1 }`}
 
 // optC18 builds option number c of kind k (0 tag, 1 hook, 2 unknown, 3 budget).
 func optC18(k, c int, u interface{}) Option {
@@ -44,7 +46,12 @@ func optC18(k, c int, u interface{}) Option {
 }
 
 func datumC18() sC18 {
-	return sC18{A: vInt8(), B: vString(1), W: wrapC12{V: map[string]interface{}{"k": vInt8()}}}
+	l := make([]interface{}, 12)
+	for i := range l {
+		l[i] = int8(0)
+	}
+	l[8], l[9], l[10] = vInt8(), vInt8(), vInt8()
+	return sC18{A: vInt8(), B: vString(1), W: wrapC12{V: map[string]interface{}{"k": vInt8()}}, L: l}
 }
 
 // H_C18_order: two distinct options in either order.
@@ -135,7 +142,7 @@ func H_C18_neutral() {
 func H_C18_hook() {
 	expr := []string{`W.k == 1`, `"k" in W`, `W is not empty`, `any W as k, v { v == 1 }`, `a == 1 and W.k != 1`, `W.zz != 1`, `W.zz is empty or a == 1`}[vChoose(7)]
 	d := datumC18()
-	du := sC18u{A: d.A, B: d.B, W: d.W.V}
+	du := sC18u{A: d.A, B: d.B, W: d.W.V, L: d.L}
 	e1, err1 := CreateEvaluator(expr, WithHookFn(hookUnwrapC18))
 	e2, err2 := CreateEvaluator(expr)
 	vAssume(err1 == nil && err2 == nil)
